@@ -117,6 +117,59 @@ def synthetic_send(ctx, rule):
                 fail="Watchexec::send_event re-binds %s before queueing: the event is not queued as given (e.g. its priority is changed, which changes whether it is filtered and debounced)" % (rebinds + reass))
 
 
+def signal_listeners(ctx, rule):
+    """unix signal source: each OS listener of the select! produces the Signal variant of the same name (shared with C19)"""
+    facts = ctx.facts
+    sw = ctx.anchor_one(rule, "unix signal worker coroutine", [c for c in facts.fns_matching(r"^watchexec::sources::signal::imp_worker::\{closure#\d+\}$") if c.kind == "coroutine"])
+    cfgw = CFG(sw)
+    tuples = [(b.idx, st) for b in sw.blocks for st in b.stmts if st.kind == "=" and st.rv.kind == "agg" and st.rv.extra[0] == "tuple" and len(st.rv.ops) >= 2
+              and all(any(a.kind == "call" and sw.blocks[a.data].term.callee.is_("tokio::signal::unix::Signal::recv") for a in origins(sw, op)) for op in st.rv.ops)]
+    tuples = [x for x in tuples if all(cfgw.dominates(x[0], y[0]) for y in tuples)]
+    if len(tuples) != 1:
+        ctx.violation(rule, "floor:select-tuple", "the select! over the signal listeners was not found", sw.loc(sw.line))
+    else:
+        tb, tst = tuples[0]
+        kinds = []
+        for op in tst.rv.ops:
+            k = None
+            for a in origins(sw, op):
+                if a.kind == "call" and sw.blocks[a.data].term.callee.is_("tokio::signal::unix::Signal::recv"):
+                    for b2 in origins(sw, sw.blocks[a.data].term.args[0], VALUE_CALLS + ("core::ops::try_trait::Try::branch", "core::result::Result::map_err")):
+                        if b2.kind == "call" and sw.blocks[b2.data].term.callee.is_("tokio::signal::unix::signal"):
+                            for c3 in origins(sw, sw.blocks[b2.data].term.args[0]):
+                                if c3.kind == "call":
+                                    k = strip_generics(sw.blocks[c3.data].term.callee.def_).split("::")[-1]
+            kinds.append(k)
+        # the switch on the select output: value i -> Signal aggregate
+        S = "watchexec_signals::Signal"
+        aggs = {}
+        for b in sw.blocks:
+            for st in b.stmts:
+                if st.kind == "=" and st.rv.kind == "agg" and st.rv.agg_adt() and st.rv.agg_adt()[0] == S and not st.rv.ops:
+                    aggs[b.idx] = st.rv.agg_adt()[1]
+        outsw = None
+        for b in sw.blocks:
+            t = b.term
+            if t.kind == "switch" and len(t.cases) >= len(kinds) and cfgw.dominates(tb, b.idx):
+                reach = [set(cfgw.reachable_from(tt, avoid=[x for _, x in t.cases if x != tt] + [t.otherwise])) & set(aggs) for _, tt in t.cases]
+                if sum(1 for r in reach if len(r) == 1) >= len(kinds):
+                    outsw = (t, reach)
+                    break
+        want = {"hangup": "Hangup", "interrupt": "Interrupt", "quit": "Quit", "terminate": "Terminate", "user_defined1": "User1", "user_defined2": "User2"}
+        if outsw is None:
+            ctx.violation(rule, "floor:select-output", "the dispatch on the select! output was not found", sw.loc(sw.line))
+        else:
+            t, reach = outsw
+            ctx.floor(rule, "signal listeners", len([k for k in kinds if k]), 6)
+            for (v, tt), r in zip(t.cases, reach):
+                if v >= len(kinds) or len(r) != 1:
+                    continue
+                got = aggs[next(iter(r))]
+                k = kinds[v]
+                ctx.require(want.get(k) == got, rule, "signal-source:%s" % k, "the %s listener produces Signal::%s" % (k, got), sw.loc(sw.line),
+                            fail="the OS signal listener for `%s` produces Signal::%s (expected %s): signals are reported as the wrong kind" % (k, got, want.get(k)))
+
+
 def run(ctx):
     ctx.level = "other"
     ctx.undecided = ("exactly-once delivery and FIFO/priority order inside async_priority_channel; fairness between concurrent producers; "
@@ -420,54 +473,7 @@ def run(ctx):
 
     # ---- R01.6 signal listeners <-> Signal variants
     try:
-        sw = ctx.anchor_one("R01.6", "unix signal worker coroutine", [c for c in facts.fns_matching(r"^watchexec::sources::signal::imp_worker::\{closure#\d+\}$") if c.kind == "coroutine"])
-        cfgw = CFG(sw)
-        tuples = [(b.idx, st) for b in sw.blocks for st in b.stmts if st.kind == "=" and st.rv.kind == "agg" and st.rv.extra[0] == "tuple" and len(st.rv.ops) >= 2
-                  and all(any(a.kind == "call" and sw.blocks[a.data].term.callee.is_("tokio::signal::unix::Signal::recv") for a in origins(sw, op)) for op in st.rv.ops)]
-        tuples = [x for x in tuples if all(cfgw.dominates(x[0], y[0]) for y in tuples)]
-        if len(tuples) != 1:
-            ctx.violation("R01.6", "floor:select-tuple", "the select! over the signal listeners was not found", sw.loc(sw.line))
-        else:
-            tb, tst = tuples[0]
-            kinds = []
-            for op in tst.rv.ops:
-                k = None
-                for a in origins(sw, op):
-                    if a.kind == "call" and sw.blocks[a.data].term.callee.is_("tokio::signal::unix::Signal::recv"):
-                        for b2 in origins(sw, sw.blocks[a.data].term.args[0], VALUE_CALLS + ("core::ops::try_trait::Try::branch", "core::result::Result::map_err")):
-                            if b2.kind == "call" and sw.blocks[b2.data].term.callee.is_("tokio::signal::unix::signal"):
-                                for c3 in origins(sw, sw.blocks[b2.data].term.args[0]):
-                                    if c3.kind == "call":
-                                        k = strip_generics(sw.blocks[c3.data].term.callee.def_).split("::")[-1]
-                kinds.append(k)
-            # the switch on the select output: value i -> Signal aggregate
-            S = "watchexec_signals::Signal"
-            aggs = {}
-            for b in sw.blocks:
-                for st in b.stmts:
-                    if st.kind == "=" and st.rv.kind == "agg" and st.rv.agg_adt() and st.rv.agg_adt()[0] == S and not st.rv.ops:
-                        aggs[b.idx] = st.rv.agg_adt()[1]
-            outsw = None
-            for b in sw.blocks:
-                t = b.term
-                if t.kind == "switch" and len(t.cases) >= len(kinds) and cfgw.dominates(tb, b.idx):
-                    reach = [set(cfgw.reachable_from(tt, avoid=[x for _, x in t.cases if x != tt] + [t.otherwise])) & set(aggs) for _, tt in t.cases]
-                    if sum(1 for r in reach if len(r) == 1) >= len(kinds):
-                        outsw = (t, reach)
-                        break
-            want = {"hangup": "Hangup", "interrupt": "Interrupt", "quit": "Quit", "terminate": "Terminate", "user_defined1": "User1", "user_defined2": "User2"}
-            if outsw is None:
-                ctx.violation("R01.6", "floor:select-output", "the dispatch on the select! output was not found", sw.loc(sw.line))
-            else:
-                t, reach = outsw
-                ctx.floor("R01.6", "signal listeners", len([k for k in kinds if k]), 6)
-                for (v, tt), r in zip(t.cases, reach):
-                    if v >= len(kinds) or len(r) != 1:
-                        continue
-                    got = aggs[next(iter(r))]
-                    k = kinds[v]
-                    ctx.require(want.get(k) == got, "R01.6", "signal-source:%s" % k, "the %s listener produces Signal::%s" % (k, got), sw.loc(sw.line),
-                                fail="the OS signal listener for `%s` produces Signal::%s (expected %s): signals are reported as the wrong kind" % (k, got, want.get(k)))
+        signal_listeners(ctx, "R01.6")
     except Skip:
         pass
 
